@@ -833,6 +833,11 @@ class Model:
                         # passive_updates=False: the renamed parent's collection is loaded from the database during the
                         # flush and a row found there follows the new key, whatever the objects say
                         tr[l.fk] = stale_rows[sk]
+        # an in-session parent whose collection holds an object that is not in the session: "will not proceed"
+        for (ln, c_), p_ in m.par.items():
+            if p_ is not None and m.objs[p_].life in "PS" and p_ not in dele and m.objs[c_].life in "TD" and spec.link[ln].o2m:
+                if not (m.objs[c_].life == "D" and m.objs[c_].dbpk is None):
+                    warn_dead = "collection member %s of %s not in session" % (c_, p_)
         # ---- association rows
         for mm_ in spec.m2ms:
             a = assoc[mm_.table]
